@@ -62,6 +62,10 @@ def _weighted_geometric_mean(x, sample_weight=None, axis=None):
         Weighted geometric mean
     """
     check_consistent_length(x, sample_weight)
+    sample_weight = np.asarray(sample_weight)
+    if sample_weight.ndim == 1 and np.ndim(x) == 2:
+        # one weight per row (forecasting horizon step), applied to every column
+        sample_weight = sample_weight.reshape(-1, 1)
     return np.exp(
         np.sum(sample_weight * np.log(x), axis=axis) / np.sum(sample_weight, axis=axis)
     )
